@@ -102,7 +102,7 @@ def c19_run(prop, tier, seed):
 P_ASSUME = COMMON_ASSUME + ["the reference evaluator and the AST printer are trusted (guarded by the wrong-reference self-test and the mutation demos)"]
 
 SPECS = {}
-QUICK_FAMILIES = ["shape", "scc", "lat", "agg"]
+QUICK_FAMILIES = ["shape", "scc", "lat", "agg", "timeout"]
 SPECS["C01"] = {"run": prog_check(["shape", "scc"], "C01"), "replay": prog_replay,
                 "technique": "bounded-exhaustive enumeration of programs (compiled by the real macros) x all input databases, compared with a naive reference evaluator",
                 "assumptions": P_ASSUME + ["programs from the families F-shape and F-scc, domain {0,1}"]}
@@ -118,6 +118,9 @@ SPECS["C05"] = {"run": prog_check(["scc", "lat", "shape"], "C05"), "replay": pro
 SPECS["C13"] = {"run": prog_check(["scc", "lat", "agg"], "C13"), "replay": prog_replay,
                 "technique": "bounded-exhaustive enumeration of run / add-facts histories over compiled programs x initial inputs x added fact sets, compared with the reference fixpoint of the union of inputs",
                 "assumptions": P_ASSUME + ["histories run;run and run;run;add;run (thorough: a second add;run and pairs of facts); facts added to any relation incl. derived ones; fresh lattice keys only"]}
+SPECS["C14"] = {"run": prog_check(["timeout"], "C14"), "replay": prog_replay,
+                "technique": "fault enumeration by virtual clock: run_timeout(t) for every t in 0..=M+1 clock readings (every position at which the deadline can strike), single / repeated / double interruptions, then resume; compared with the reference fixpoint",
+                "assumptions": P_ASSUME + ["hook: ascent::internal::Instant has a per-thread virtual mode (1 ns per reading) under the verif-hooks feature", "serial macro"]}
 SPECS["C16"] = {"run": hist_bin("c16"), "replay": hist_replay("c16"),
                 "technique": "exhaustive enumeration of all pairs/triples over complete small carriers on the real Lattice impls",
                 "assumptions": COMMON_ASSUME + ["wide integer types are covered at boundary values only; u8/i8 completely"]}
